@@ -5,6 +5,7 @@ import (
 	"unsafe"
 )
 
+//go:norace
 func (s *Sim) findHeld(p uintptr) *heldLock {
 	for i := range s.held {
 		if s.held[i].ptr == p {
@@ -14,6 +15,7 @@ func (s *Sim) findHeld(p uintptr) *heldLock {
 	return nil
 }
 
+//go:norace
 func (s *Sim) getHeld(p uintptr) *heldLock {
 	if h := s.findHeld(p); h != nil {
 		return h
@@ -28,12 +30,14 @@ func (s *Sim) getHeld(p uintptr) *heldLock {
 	return &s.held[0]
 }
 
+//go:norace
 func (s *Sim) dropHeld(h *heldLock) {
 	if !h.writer && h.readers <= 0 {
 		*h = heldLock{}
 	}
 }
 
+//go:norace
 func (s *Sim) onceRunning(p uintptr) bool {
 	for _, o := range s.onces {
 		if o == p {
@@ -44,6 +48,7 @@ func (s *Sim) onceRunning(p uintptr) bool {
 }
 
 // Lock replaces (*sync.Mutex).Lock: yield, then TryLock, repeated until acquired.
+//go:norace
 func Lock(site string, m *sync.Mutex) {
 	s := cur()
 	var w *worker
@@ -58,42 +63,45 @@ func Lock(site string, m *sync.Mutex) {
 	for {
 		s.park(w, site, wLock, p)
 		if m.TryLock() {
-			s.mu.Lock()
+			ilock(&s.mu)
 			s.getHeld(p).writer = true
-			s.mu.Unlock()
+			iunlock(&s.mu)
 			return
 		}
 	}
 }
 
 // Unlock replaces (*sync.Mutex).Unlock.
+//go:norace
 func Unlock(m *sync.Mutex) {
 	if s := cur(); s != nil {
 		p := uintptr(unsafe.Pointer(m))
-		s.mu.Lock()
+		ilock(&s.mu)
 		if h := s.findHeld(p); h != nil {
 			h.writer = false
 			s.dropHeld(h)
 		}
-		s.mu.Unlock()
+		iunlock(&s.mu)
 	}
 	m.Unlock()
 }
 
 // TryLock replaces (*sync.Mutex).TryLock.
+//go:norace
 func TryLock(site string, m *sync.Mutex) bool {
 	Yield(site)
 	ok := m.TryLock()
 	if s := cur(); s != nil && ok {
 		p := uintptr(unsafe.Pointer(m))
-		s.mu.Lock()
+		ilock(&s.mu)
 		s.getHeld(p).writer = true
-		s.mu.Unlock()
+		iunlock(&s.mu)
 	}
 	return ok
 }
 
 // RWLock replaces (*sync.RWMutex).Lock.
+//go:norace
 func RWLock(site string, m *sync.RWMutex) {
 	s := cur()
 	var w *worker
@@ -108,29 +116,31 @@ func RWLock(site string, m *sync.RWMutex) {
 	for {
 		s.park(w, site, wLock, p)
 		if m.TryLock() {
-			s.mu.Lock()
+			ilock(&s.mu)
 			s.getHeld(p).writer = true
-			s.mu.Unlock()
+			iunlock(&s.mu)
 			return
 		}
 	}
 }
 
 // RWUnlock replaces (*sync.RWMutex).Unlock.
+//go:norace
 func RWUnlock(m *sync.RWMutex) {
 	if s := cur(); s != nil {
 		p := uintptr(unsafe.Pointer(m))
-		s.mu.Lock()
+		ilock(&s.mu)
 		if h := s.findHeld(p); h != nil {
 			h.writer = false
 			s.dropHeld(h)
 		}
-		s.mu.Unlock()
+		iunlock(&s.mu)
 	}
 	m.Unlock()
 }
 
 // RWRLock replaces (*sync.RWMutex).RLock.
+//go:norace
 func RWRLock(site string, m *sync.RWMutex) {
 	s := cur()
 	var w *worker
@@ -145,30 +155,32 @@ func RWRLock(site string, m *sync.RWMutex) {
 	for {
 		s.park(w, site, wRLock, p)
 		if m.TryRLock() {
-			s.mu.Lock()
+			ilock(&s.mu)
 			s.getHeld(p).readers++
-			s.mu.Unlock()
+			iunlock(&s.mu)
 			return
 		}
 	}
 }
 
 // RWRUnlock replaces (*sync.RWMutex).RUnlock.
+//go:norace
 func RWRUnlock(m *sync.RWMutex) {
 	if s := cur(); s != nil {
 		p := uintptr(unsafe.Pointer(m))
-		s.mu.Lock()
+		ilock(&s.mu)
 		if h := s.findHeld(p); h != nil {
 			h.readers--
 			s.dropHeld(h)
 		}
-		s.mu.Unlock()
+		iunlock(&s.mu)
 	}
 	m.RUnlock()
 }
 
 // OnceDo replaces (*sync.Once).Do: f may contain yield points, so a second caller
 // waits at a yield (not inside sync.Once's private mutex) while f runs.
+//go:norace
 func OnceDo(site string, o *sync.Once, f func()) {
 	s := cur()
 	var w *worker
@@ -182,9 +194,9 @@ func OnceDo(site string, o *sync.Once, f func()) {
 	p := uintptr(unsafe.Pointer(o))
 	for {
 		s.park(w, site, wOnce, p)
-		s.mu.Lock()
+		ilock(&s.mu)
 		if s.onceRunning(p) {
-			s.mu.Unlock()
+			iunlock(&s.mu)
 			continue
 		}
 		slot := -1
@@ -199,15 +211,15 @@ func OnceDo(site string, o *sync.Once, f func()) {
 			slot = 0
 		}
 		s.onces[slot] = p
-		s.mu.Unlock()
+		iunlock(&s.mu)
 		defer func() {
-			s.mu.Lock()
+			ilock(&s.mu)
 			for i, x := range s.onces {
 				if x == p {
 					s.onces[i] = 0
 				}
 			}
-			s.mu.Unlock()
+			iunlock(&s.mu)
 		}()
 		o.Do(f)
 		return
@@ -215,6 +227,7 @@ func OnceDo(site string, o *sync.Once, f func()) {
 }
 
 // WaitGroupWait replaces (*sync.WaitGroup).Wait.
+//go:norace
 func WaitGroupWait(site string, wg *sync.WaitGroup) {
 	if cur() == nil {
 		wg.Wait()
@@ -230,12 +243,14 @@ func WaitGroupWait(site string, wg *sync.WaitGroup) {
 // channels
 
 // Recv replaces the expression <-c.
+//go:norace
 func Recv[T any](site string, c <-chan T) T {
 	v, _ := Recv2(site, c)
 	return v
 }
 
 // Recv2 replaces v, ok := <-c.
+//go:norace
 func Recv2[T any](site string, c <-chan T) (T, bool) {
 	if cur() == nil {
 		v, ok := <-c
@@ -254,6 +269,7 @@ func Recv2[T any](site string, c <-chan T) (T, bool) {
 }
 
 // Send replaces the statement c <- v.
+//go:norace
 func Send[T any](site string, c chan<- T, v T) {
 	if cur() == nil {
 		c <- v
@@ -271,13 +287,16 @@ func Send[T any](site string, c chan<- T, v T) {
 }
 
 // Close replaces close(c).
+//go:norace
 func Close[T any](site string, c chan<- T) {
 	Yield(site)
 	close(c)
 }
 
 // SendVal converts v to the element type of c (helper of the select rewrite).
+//go:norace
 func SendVal[T any](_ chan<- T, v T) T { return v }
 
 // RecvZero returns the zero value of c's element type (helper of the select rewrite).
+//go:norace
 func RecvZero[T any](_ <-chan T) (z T) { return }
